@@ -1653,10 +1653,18 @@ def _predict_blocked_scheme(case):
     if not isinstance(tmpl, str):
         return None
     view = case["view"]
-    text = tmpl
-    # the placeholders the generated message texts use are attributes of the element: label, name, u, value
-    for key in ("label", "name", "u", "value"):
-        text = text.replace("%%(%s)s" % key, str(view.get(key)))
+
+    class _Fields(dict):
+        def __missing__(self, key):
+            return "%(" + key + ")s"
+    # the placeholders the generated message texts use are attributes of the element (label, name, u, value); the
+    # text is expanded the way the library expands it: %-formatting against a mapping ('%%' is a literal percent)
+    try:
+        text = tmpl % _Fields((k, view.get(k)) for k in ("label", "name", "u", "value"))
+    except (TypeError, ValueError, KeyError):
+        text = tmpl
+        for key in ("label", "name", "u", "value"):
+            text = text.replace("%%(%s)s" % key, str(view.get(key)))
     return pre if (tmpl == "" or text in pre) else pre + [text]
 
 
